@@ -248,7 +248,9 @@ func (u *H2Upstream) acceptLoop(ln net.Listener) {
 			}
 			u.changed()
 			u.mu.Unlock()
-			_ = c.Close()
+			// answer the peer's FIN with a reset: its socket then skips TIME_WAIT (thousands of histories per
+			// minute would otherwise exhaust the ephemeral ports of the shared machine)
+			rst(c)
 		}()
 	}
 }
